@@ -481,19 +481,22 @@ def specs(repo):
     return out
 
 
-def judge(r, slack=4.0):
+def judge(r, slack=4.0, hard_limit=HARD_LIMIT):
     """-> list of (atom, text) property failures of one case; [] = fine; None = the drop happened after the exchange"""
     spec, res = r["spec"], r["res"]
     t = "system" if spec["rig"] == "pty" else spec["rig"]
     if r["killed"]:
         stuck = res["ops"][-1]["op"] if res and res["ops"] else "start"
-        return [(["righang", t], f"{spec}: no result within {HARD_LIMIT}s (timeout_ops={TIMEOUT_OPS}); last finished step: {stuck}")]
+        return [(["righang", t], f"{spec}: no result within {hard_limit}s (timeout_ops={TIMEOUT_OPS}): the operation hangs; last finished step: {stuck}")]
     ops = {o["op"]: o for o in res["ops"]}
     if not res.get("failed"):
         return None
     bad = []
     first = next(o for o in res["ops"] if not o["ok"])
-    if not first["scrapli"]:
+    if first["exc"] == "Starved":
+        bad.append((["righang", t], f"{spec}: {first['op']} spins without ever yielding to the event loop (thousands of reads returned b'' without awaiting): "
+                                    "no timeout can fire, the operation hangs for ever"))
+    elif not first["scrapli"]:
         bad.append((["rigexc", t, first["exc"]], f"{spec}: {first['op']} raised {first['exc']}: {first['msg']}"))
     elif first["s"] > TIMEOUT_OPS + slack and first["op"] != "open":
         bad.append((["riglate", t], f"{spec}: {first['op']} raised after {first['s']}s (timeout_ops={TIMEOUT_OPS})"))
